@@ -214,6 +214,13 @@ def run(ctx, replay=None):
     kinds = collections.Counter()
     errkinds = collections.Counter()
     sizes = collections.Counter()
+    if ctx.prop == 'C02':
+        # the structural hypothesis of C02_cumulative_capacity, evaluated by the model on every sampled program
+        notok = [i for i, rp in enumerate(reports) if rp and rp.get('info', {}).get('cumul_ok') == 'false']
+        stats['cumul_ok_true'] = sum(1 for rp in reports if rp and rp.get('info', {}).get('cumul_ok') == 'true')
+        stats['cumul_ok_false'] = len(notok)
+        if notok:
+            tie_breaks.append((notok[0], 'hypothesis', {'what': 'cumul_ok is false on a reachable state: theorem C02_cumulative_capacity does not apply'}))
     for p in progs:
         sizes[min(len(p) // 5 * 5, 30)] += 1
         for o in p:
